@@ -221,8 +221,8 @@ type OrderItem struct {
 type Expr interface{}
 
 type (
-	ELit   struct{ V Value }          // string, int64, bool, nil
-	EParam struct{ N int }            // 1-based
+	ELit   struct{ V Value }            // string, int64, bool, nil
+	EParam struct{ N int }              // 1-based
 	ECol   struct{ Table, Name string } // Table may be ""
 	EBin   struct {
 		Op   string // = <> < <= > >= and or
@@ -254,7 +254,7 @@ type parser struct {
 }
 
 func (p *parser) peek() token { return p.toks[p.i] }
-func (p *parser) next() token  { t := p.toks[p.i]; p.i++; return t }
+func (p *parser) next() token { t := p.toks[p.i]; p.i++; return t }
 func (p *parser) isKw(kw string) bool {
 	t := p.peek()
 	return t.kind == tIdent && t.s == kw
